@@ -88,6 +88,10 @@ def run_isomers(case):
         smis = rng.sample(ISOMERS, n + 1)
         n += 1
         mode = "pct"
+    if rng.random() < 0.25 and n >= 3 and 0 not in pct:
+        # the same molecule listed twice (two lots of one ingredient): its declared share is the sum of both entries
+        k_dup = rng.randrange(1, n)
+        smis[k_dup] = smis[0]
     m = Descriptors.HeavyAtomMolWt(Chem.MolFromSmiles(smis[0]))
     M = m * case["nmol"]
     parts = []
@@ -105,6 +109,17 @@ def run_isomers(case):
     if mis:
         return {"viol": [mis], "cnt": {}, "nt": []}
     canon = [Chem.MolToSmiles(Chem.MolFromSmiles(x)) for x in smis]
+    if len(set(canon)) < len(canon):
+        # fold duplicate listings: shares are compared per distinct molecule
+        uniq = []
+        for x in canon:
+            if x not in uniq:
+                uniq.append(x)
+        declared = [sum(d for d, x in zip(declared, canon) if x == u) for u in uniq]
+        smis = uniq
+        canon = uniq
+        n = len(uniq)
+        pct = [100.0 * d for d in declared]
     cnt = collections.Counter()
     viol = []
 
